@@ -157,6 +157,9 @@ def check_shapes(seq, fails):
         fails.append("array_axis_physical_types does not describe the cubes held")
 
 
+NPINT = [False]          # set per case by run(): integers of a tuple index are passed as numpy integers
+
+
 def apply_step(seq, cubes_src, step, rng, exact):
     """Run one step on the implementation and evaluate the oracle for it.
     Returns (result or None, err or None, failure or None, model_req)."""
@@ -202,7 +205,7 @@ def apply_step(seq, cubes_src, step, rng, exact):
     if "single" in index:
         items, pyidx = [index["single"]], C.to_py_item(index["single"])
     else:
-        items, pyidx = list(index["tuple"]), C.to_py_index(index["tuple"])
+        items, pyidx = list(index["tuple"]), C.to_py_index(index["tuple"], npint=NPINT[0])
     try:
         out, err = seq[pyidx], None
     except Exception as e:
@@ -292,6 +295,7 @@ def apply_step(seq, cubes_src, step, rng, exact):
 def run(case):
     from ndcube import NDCubeSequence
     rng = random.Random(case["wseed"] + 3)
+    NPINT[0] = C.npint_of(case)
     seq, cubes = C.build_sequence(case["shapes"], case["ca"], case["fam"], case["wseed"])
     exact = case["fam"].startswith("probe")
     s1 = case["step1"]
